@@ -88,9 +88,34 @@ def replay_sim(rec, behaviours, analyses=None, mid=None, rng=None):
             n += 1
             if mid and rng.random() < 0.3:
                 mid(s)
+        n += alias_mux_call(s)
         if analyses:
             analyses(s)
     return n
+
+
+def alias_mux_call(s):
+    """a last call outside the model: a PMux over a parent list that names one component twice, by its name and by its
+    rail.  Whether the library accepts it is not judged; if it RAISES, the system must be untouched like after any
+    other rejected call (C15)"""
+    try:
+        g = s._g
+        if any(type(g[i]).__name__ == "PMux" for i in g.node_indices()):
+            return 0
+        railed = [(n, r) for n, r in g.attrs["rails"].items() if r and type(g[g.attrs["nodes"][n]]).__name__ not in ("PLoad", "ILoad", "RLoad")]
+        if not railed:
+            return 0
+        n, r = railed[0]
+        others = [m for m in g.attrs["nodes"] if m != n and type(g[g.attrs["nodes"][m]]).__name__ not in ("PLoad", "ILoad", "RLoad")]
+        refs = ([others[0]] if others else []) + [n, r]
+        name = next(x for x in ("mx1", "mx2", "mx3") if x not in g.attrs["nodes"] and x not in g.attrs["rails"].values())
+    except Exception:
+        return 0
+    try:
+        s.add_comp(refs, comp=_comp({"cls": "PMux", "name": name, "pay": 0}))
+    except Exception:
+        pass
+    return 1
 
 
 # ----------------------------------------------------------------------------------------------
